@@ -31,6 +31,7 @@ BUDGET = {
     "quick": {"examples": 200, "shards": 8, "case_timeout": 120, "wall_budget": 280},
     "thorough": {"examples": 4000, "shards": 16, "case_timeout": 300, "wall_budget": 2400},
 }
+FUZZ = {"thorough": dict(runs=20000, procs=8, wall_s=600)}
 TOLERANCES = {"rms_slope_margin": 0.15, "mean_slope_margin": 0.2, "mean_floor": 1e-13, "exact_clause": 1e-12}
 TFACT = ["1", "cos_t", "sin_t", "lin_t"]
 YTERM = ["1", "y", "sin", "cos", "tanh", "gauss", "rat"]
